@@ -1,3 +1,64 @@
-(* C08 — write-ahead (theorems are being moved here from Proofs/; placeholder while the invariant is built) *)
-From Tramp Require Import Model.Base Model.Sys.
-Theorem C08_placeholder : True. Proof. exact I. Qed.
+(* C08 — write-ahead: the durable record never understates the outgoing payment.
+
+   "At every instant, if any outgoing part for a payment hash is pending or complete on the node, the durable
+    record for that hash says in-flight or succeeded, never free or absent. In particular the in-flight marker is
+    durably written before the pay request is issued, a free marker is written only when nothing is pending or
+    complete, and a succeeded record always holds a preimage of that hash."
+
+   Quantification: any durable start image [n] that itself respects the property ([node_ok]: no pay command runs
+   at start-up, the record found covers the parts found, the record parses), any history [evs] of HTLC arrivals,
+   RPC processing WITH injected faults on every write and on pay (rejected, or applied-but-reported-failed), reply
+   deliveries in any order, part resolutions, pay-command progress, timer ticks, block heights and CRASHES; every
+   prefix is a possible crash image because [evs] is arbitrary. [hist_wf] is the environment contract: N1/N2 on
+   what a finished pay command reports, and no injected error on a READ rpc (with one, wait_payment's error is taken
+   for a failed payment: the known-finding class kf_read_error of C02, under which Free can be written early). *)
+From Tramp Require Import Model.Base Model.Fee Model.Classify Model.Node Model.Provider Model.ProviderSys Model.Sys.
+From Tramp Require Import Proofs.SysBasics Proofs.SysReach Proofs.SysPreimage Proofs.SysCalls Proofs.SysNode Proofs.SysSafety.
+
+(* at every instant: something pending or complete, or a pay command running  ==>  the record says Pending or Succeeded *)
+Theorem C08_write_ahead : forall c n t0 h0 a0 evs,
+  node_ok n -> hist_wf c (sys_start n t0 h0 a0) evs ->
+  let s := after c n t0 h0 a0 evs in
+  busy (nd s) \/ payrun (nd s) <> 0 -> hot (nd s).
+Proof. intros c n t0 h0 a0 evs Hn Hwf. exact (write_ahead c _ (after_wreach c n t0 h0 a0 evs Hn Hwf)). Qed.
+
+(* the same, read the other way: whenever the record is free or absent, every part has failed and no pay command runs
+   — so a free marker can only ever be in place (hence only be written) when nothing is pending or complete *)
+Theorem C08_free_only_when_nothing_live : forall c n t0 h0 a0 evs,
+  node_ok n -> hist_wf c (sys_start n t0 h0 a0) evs ->
+  let s := after c n t0 h0 a0 evs in
+  free_view (ds (nd s)) -> all_failed (parts (nd s)) /\ payrun (nd s) = 0.
+Proof. intros c n t0 h0 a0 evs Hn Hwf. exact (free_means_quiet c _ (after_wreach c n t0 h0 a0 evs Hn Hwf)). Qed.
+
+(* the in-flight marker is durable in the node at the moment the pay request is issued *)
+Theorem C08_marker_before_pay : forall c n t0 h0 a0 evs ev cid b am mf md rt,
+  node_ok n -> hist_wf c (sys_start n t0 h0 a0) evs ->
+  let s := after c n t0 h0 a0 evs in
+  In (OCall cid (QPay b am mf md rt)) (snd (step c s ev)) -> hot (nd s).
+Proof.
+  intros c n t0 h0 a0 evs ev cid b am mf md rt Hn Hwf s Hin.
+  exact (proj2 (pay_only_when_quiet c s ev cid b am mf md rt (after_wreach c n t0 h0 a0 evs Hn Hwf) Hin)).
+Qed.
+
+(* a succeeded record holds a good key (good := "hashes to this payment hash", or "was produced by the node for this
+   hash": the two instances of C01), for ANY history, read faults included *)
+Theorem C08_succeeded_record_holds_preimage : forall (good : list N -> Prop) c evs s,
+  InvS good s -> Forall (ev_good good) evs ->
+  forall p g, ds (nd (fst (run c s evs))) = Some (DSucc p, g) -> good p.
+Proof.
+  intros good c. induction evs as [|ev r IH]; intros s HS Hev p g Hd; cbn [run] in Hd.
+  - exact (proj1 (is_node good s HS) p g Hd).
+  - inversion Hev as [|? ? He Hr]; subst. pose proof (step_InvS good c s ev HS He) as HS1.
+    destruct (step c s ev) as [s1 o]. cbn [fst] in *. specialize (IH s1 HS1 Hr p g).
+    destruct (run c s1 r) as [s2 os]. exact (IH Hd).
+Qed.
+
+(* non-vacuity: a crash after the marker was written and pay started leaves Pending + a pending part; the invariant holds there *)
+Example C08_nonvacuous :
+  let c := {| mpp_ms := 60000; pol := {| fee_base := 0; fee_ppm := 0; pol_delta := 40 |}; cltv_delta := 6; retry_for := 60 |} in
+  let h := {| hid := 7; blob := [1]; deliver := 10; inv_amount := Some 10; amt := 10; total := 10; expiry := 1000; rel := 100%Z |} in
+  let evs := [EvHtlc h; EvProcess 0 NoFault; EvDeliver 0 true; EvProcess 1 NoFault; EvDeliver 1 true; EvProcess 2 NoFault; EvDeliver 2 true;
+              EvProcess 3 NoFault; EvPayNewPart 3; EvCrash] in
+  let s := after c node0 0 0 0 evs in
+  parts (nd s) = [PPend] /\ ds (nd s) = Some (DPending 0 0, 0).
+Proof. vm_compute. split; reflexivity. Qed.
